@@ -544,6 +544,7 @@ def discharge(premises, goal, timeout_ms=10000, hints=None):
     if not quant and not odd and not _has_quant(goal):
         ints, strs = harvest(ground + [neg])
         fs0 = ground + [neg] + ord_axioms(strs, ground + [neg])
+        fs0 = fs0 + term_axioms(fs0)
         seq = uses_seq(fs0)
         r, s, dt = check(fs0, min(timeout_ms, 1500) if seq else timeout_ms)
         if r == z3.unsat:
@@ -600,10 +601,22 @@ def discharge(premises, goal, timeout_ms=10000, hints=None):
                 inst = inst + instantiate(one, new_ints, strs)
                 fs = base + inst + ord_axioms(strs, base + inst)
                 fs = fs + term_axioms(fs)
+                r_1, s_1 = r, s
                 r, s, dt = check(fs, min(timeout_ms, 2000 if seq else 5000))
+                if r == z3.unknown and r_1 == z3.sat:
+                    # the deeper round is undecided: keep the first round's model as
+                    # the candidate counter-model
+                    r, s = r_1, s_1
         state["r"], state["s"] = r, s
         if r == z3.unsat:
             return dict(status="proved", stage=1, backend="z3", time_s=time.time() - t0, instances=len(inst))
+        if r == z3.unknown and not seq:
+            # second opinion on the ground instance set
+            rc, outc, dtc = cvc5_check(fs, min(timeout_ms, 8000))
+            if rc == "unsat":
+                return dict(status="proved", stage=1, backend="cvc5", time_s=time.time() - t0, instances=len(inst))
+            if rc == "sat":
+                state["r"], state["s"], state["cvc5_sat"] = z3.sat, None, True
         if seq:
             r1, out1, dt1 = cvc5_check(fs, timeout_ms)
             if r1 == "unsat":
@@ -636,7 +649,7 @@ def discharge(premises, goal, timeout_ms=10000, hints=None):
         return dict(status="proved", stage=2, backend="z3", time_s=time.time() - t0)
     if r2 == z3.sat:
         return dict(status="refuted", stage=2, backend="z3", time_s=time.time() - t0, model=_model_str(s2))
-    return dict(status="unknown", stage=2, time_s=time.time() - t0, detail=s2.reason_unknown(), stage1=str(r), stage1_model=_model_str(s) if r == z3.sat else None)
+    return dict(status="unknown", stage=2, time_s=time.time() - t0, detail=s2.reason_unknown(), stage1=str(r), stage1_model=(_model_str(s) if s is not None else "cvc5: the ground instance set is satisfiable") if r == z3.sat else None)
 
 
 def _model_str(s, limit=4000):
